@@ -699,7 +699,14 @@ func (sc *scenario) judge(sp spec, fired map[string]int) {
 				}
 			}
 			if allFast {
-				k.Count("retries_after_fast_handler_not_judged:"+sp.stream, 1)
+				// not a verdict: a reply that was looked up after its attempt had ended (late "unknown
+				// request ID") is a slow schedule; without such an event the reply was still in flight
+				// or was buffered for an attempt that had already left its select
+				cause := "no-unknown-id-event"
+				if _, ok := firstU[st.inv[0].ID]; ok {
+					cause = "reply-looked-up-after-attempt-ended"
+				}
+				k.Count("retries_after_fast_handler_not_judged:"+sp.stream+":"+cause, 1)
 			}
 		}
 
